@@ -119,13 +119,7 @@ def check_item(it):
                 typed=sorted(types))
 
 
-D18_KEY = "C05:D18:uninitialised-variable-assigned-only-under-guard-keeps-v0"
-
-
 def key_of(it, v):
-    # known finding D18 (typer drops the symbolic initial value v0 of a variable assigned under a guard-implied condition):
-    # identified by its call site/class -- the missing value is exactly the variable's own initial symbol
-    if v.get('value') == v['goal'] + '0': return D18_KEY
     h = hashlib.sha1((it['src'] + f"|{it['fp']}|" + v['goal']).encode()).hexdigest()[:12]
     return f"C05:{h}:{it['name']}:{v['goal']}"
 
